@@ -71,12 +71,27 @@ TAGS = (
 )
 
 
-def tag_class(tag: str) -> int:
-    """Equivalence class of a tag: EPSG code, 0 for 'no CRS'."""
-    return 0 if tag == "none" else int(tag.split(":")[1])
+# CRSs WITHOUT an EPSG code: two different custom projections; "+e" = the state in which `.epsg` / `to_epsg()`
+# has already been evaluated on the operand's CRS object (its lazily filled EPSG slot then holds None, not 0).
+PROJ4 = {
+    "A": "+proj=laea +lat_0=52 +lon_0=10 +x_0=0 +y_0=0 +datum=WGS84 +units=m +no_defs",
+    "B": "+proj=laea +lat_0=-30 +lon_0=140 +x_0=0 +y_0=0 +datum=WGS84 +units=m +no_defs",
+}
+_CUSTOM_REF = {k: pyproj.CRS(v) for k, v in PROJ4.items()}
+_WKT2["A"] = _CUSTOM_REF["A"].to_wkt()
+NONEPSG_TAGS = ("proj:A", "proj:A+e", "wkt2:A", "wkt2:A+e", "pyproj:A", "proj:B", "proj:B+e")
+SUB_TAGS = ("none", "EPSG:4326", "wkt2:4326", "wkt2:4326+e") + NONEPSG_TAGS  # alphabet of the non-epsg slice
 
 
-def cls_label(c: int) -> str:
+def tag_class(tag: str):
+    """Equivalence class of a tag: EPSG code, 0 for 'no CRS', 'laeaA'/'laeaB' for the custom projections."""
+    if tag == "none":
+        return 0
+    code = tag.split(":")[1].split("+")[0]
+    return int(code) if code.isdigit() else f"laea{code}"
+
+
+def cls_label(c) -> str:
     return "none" if c == 0 else str(c)
 
 
@@ -84,14 +99,16 @@ def make_tag(tag: str):
     """A new value of the given spelling (what the user passes as ``crs=``)."""
     if tag == "none":
         return None
-    sp, code = tag.split(":")
-    code = int(code)
+    sp, code = tag.split("+")[0].split(":")
+    code = int(code) if code.isdigit() else code
     if sp in ("EPSG", "epsg"):
         return f"{sp}:{code}"
+    if sp == "proj":
+        return PROJ4[code]
     if sp == "wkt2":
         return _WKT2[code]
     if sp == "pyproj":
-        return pyproj.CRS.from_epsg(code)
+        return pyproj.CRS.from_epsg(code) if isinstance(code, int) else pyproj.CRS(PROJ4[code])
     if sp == "crs":
         return CRS(f"EPSG:{code}")  # an existing odc CRS object
     raise ValueError(tag)
@@ -110,8 +127,20 @@ def tagv(tag: str):
 _EPSG_OF: dict = {}
 
 
-def crs_class_of(c) -> int:
-    """EPSG class of a CRS attribute, established independently of CRS.__eq__. -1: not a CRS/None."""
+def _class_of_str(s):
+    p = pyproj.CRS.from_user_input(s)
+    e = p.to_epsg()
+    if e:
+        return e
+    for k, ref in _CUSTOM_REF.items():
+        if p == ref:  # pyproj equality of fresh objects, not odc's CRS.__eq__
+            return f"laea{k}"
+    return -2
+
+
+def crs_class_of(c):
+    """Class of a CRS attribute (EPSG code / custom projection), established independently of CRS.__eq__.
+    -1: not a CRS/None, -2: unknown."""
     if c is None:
         return 0
     if not isinstance(c, CRS):
@@ -119,7 +148,7 @@ def crs_class_of(c) -> int:
     s = str(c)
     if s not in _EPSG_OF:
         try:
-            _EPSG_OF[s] = pyproj.CRS.from_user_input(s).to_epsg() or -2
+            _EPSG_OF[s] = _class_of_str(s)
         except Exception:  # pylint: disable=broad-except
             _EPSG_OF[s] = -2
     return _EPSG_OF[s]
@@ -654,6 +683,10 @@ def reference(op, fam, container, kinds):
 # same-CRS, operands) is an observation by default; set True to demand the ValueError even then.
 STRICT_RAW_FAILURE = False
 
+def _have_label(c):
+    return {-1: "not-a-crs", -2: "unknown-crs"}.get(c, cls_label(c)) if isinstance(c, int) else str(c)
+
+
 PIXEL_SPACE = ("GeoBox.overlap_roi", "geobox.pixel_translation", "geobox.bounding_box_in_pixel_domain")
 
 
@@ -726,7 +759,7 @@ def judge(op, container, kinds, tags, operands=None):
             r.fail(f"{op}:same:value-differs:{kkey}", f"{what}: returned {show(got)}: its parts are not the input shapes in order")
     elif ref[1] == ("crs",):
         if crs_class_of(got) != c0:
-            r.fail(f"{op}:same:result-crs:{cls_label(c0)}->{cls_label(crs_class_of(got)) if crs_class_of(got) >= 0 else 'not-a-crs'}",
+            r.fail(f"{op}:same:result-crs:{cls_label(c0)}->{_have_label(crs_class_of(got))}",
                    f"{what}: returned {show(got)}, expected a CRS of class {cls_label(c0)}")
         elif not all((got is None and o.crs is None) or got == o.crs for o in operands):
             r.fail(f"{op}:same:result-crs-unequal:{tkey}", f"{what}: returned {show(got)} which compares != an operand's crs")
@@ -739,7 +772,7 @@ def judge(op, container, kinds, tags, operands=None):
     for o in tagged_objects(got):
         have = crs_class_of(o.crs)
         if have != want_c:
-            r.fail(f"{op}:same:result-crs:{cls_label(c0)}->{cls_label(have) if have >= 0 else 'not-a-crs'}",
+            r.fail(f"{op}:same:result-crs:{cls_label(c0)}->{_have_label(have)}",
                    f"{what}: result {show(o)} carries crs {o.crs!r}; expected CRS class {cls_label(want_c)}")
         elif want_c and not all(o.crs == x.crs for x in operands):
             r.fail(f"{op}:same:result-crs-unequal:{tkey}", f"{what}: result crs {o.crs!r} compares != an operand's crs")
@@ -753,11 +786,11 @@ def tag_pairs():
     return [(a, b) for a in TAGS for b in TAGS]
 
 
-def tag_triples():
+def tag_triples(alphabet=TAGS):
     """length-3 tuples: a base tag twice and the odd one at each position (all ordered (base, odd) pairs)."""
     out, seen = [], set()
-    for base in TAGS:
-        for odd in TAGS:
+    for base in alphabet:
+        for odd in alphabet:
             for pos in range(3):
                 t = [base, base, base]
                 t[pos] = odd
@@ -801,6 +834,70 @@ def run_case(case):
     if op not in OPS:  # replay of a case recorded against another tree
         return R(outcome="operation-absent-from-this-tree", nontrivial=False)
     return judge(op, cont, kinds, tags)
+
+
+# ---- CRSs without an EPSG code, fresh and after `.epsg` was evaluated -----------------------------------
+NE_KINDS2 = {"Geometry": (("polygon", "polyhole"), ("line", "polygon"), ("point", "multipolygon"), ("polygon", "line")),
+             "BoundingBox": (("A", "over"), ("A", "apart")),
+             "GeoBox": (("base", "shift"), ("base", "subpix"), ("base", "far"))}
+NE_KINDS3 = {"Geometry": (("polygon", "polyhole", "multipolygon"), ("line", "polygon", "point")),
+             "BoundingBox": (("A", "over", "apart"),),
+             "GeoBox": (("base", "shift", "inside"), ("base", "far", "shift"))}
+
+
+def gen_nonepsg():
+    pairs = [(a, b) for a in SUB_TAGS for b in SUB_TAGS]
+    triples = tag_triples(SUB_TAGS)
+    for fam in ("Geometry", "BoundingBox", "GeoBox"):
+        for op in ops_of(fam, True):
+            for kk in NE_KINDS2[fam]:
+                for tt in pairs:
+                    yield (op, "list", kk, tt)
+        for op in ops_of(fam, False):
+            for cont in containers(op):
+                for kk in NE_KINDS2[fam]:
+                    for tt in pairs:
+                        yield (op, cont, kk, tt)
+                for kk in NE_KINDS3[fam]:
+                    for tt in triples:
+                        yield (op, cont, kk, tt)
+
+
+def _build(fam, kind, pos, value):
+    if fam == "Geometry":
+        return Geometry(raw_shape(kind, pos), value)
+    if fam == "BoundingBox":
+        return BoundingBox(*BB_KINDS[kind], crs=value)
+    return GeoBox(GB_KINDS[kind][:2], gb_affine(kind), value)
+
+
+def stateful_operand(fam, kind, pos, tag):
+    """Operand whose CRS object is in the state the tag names, established here, per case:
+    plain tag: a NEW CRS object (only the spelled value - string / pyproj object - and the library's parse cache
+    are shared; the lazily filled EPSG slot lives on the CRS object itself and starts out 'not looked up');
+    '+e' tag: `.epsg` and `to_epsg()` are evaluated on the operand's own CRS object before the operation."""
+    base = tag.split("+")[0]
+    if tag.endswith("+e"):
+        k = ("ecrs", tag, pos)  # one CRS object per operand position: the operands are evaluated separately
+        if k not in _OBJ:
+            _OBJ[k] = CRS(tagv(base))
+        crs = _OBJ[k]
+        _ = crs.epsg  # (the pyproj look-up happens once per object; afterwards the slot answers)
+        _ = crs.to_epsg()
+        return _build(fam, kind, pos, crs)  # norm_crs keeps a CRS object as it is
+    return _build(fam, kind, pos, tagv(base))
+
+
+def run_nonepsg(case):
+    op, cont, kinds, tags = case
+    if op not in OPS:
+        return R(outcome="operation-absent-from-this-tree", nontrivial=False)
+    fam = OPS[op]["family"]
+    operands = [stateful_operand(fam, k, i, t) for i, (k, t) in enumerate(zip(kinds, tags))]
+    slots = "+".join(sorted({"-" if o.crs is None else str(getattr(o.crs, "_epsg", "?")) for o in operands}))
+    r = judge(op, cont, kinds, tags, operands=operands)
+    r.outcome = f"nonepsg:{r.outcome}:epsg-slots={slots}"  # 0 = not looked up, None = looked up: no code
+    return r
 
 
 # ---- fresh caches: every ordered tag pair after every one-step history of the CRS cache ----------------------
@@ -871,6 +968,10 @@ def slices(tier):
                  "empty) x tag pairs", setup=reset),
         e1.Slice("geobox-nary", gen_nary("GeoBox", tuple(GB_KINDS), k3x), run_case,
                  "geobox_union/intersection_conservative on lists of 2 and 3 GeoBoxes", setup=reset),
+        e1.Slice("non-epsg", gen_nonepsg, run_nonepsg,
+                 "every operation x a few kind tuples x all ordered pairs / odd-one-out triples of tags incl. two custom "
+                 "projections without EPSG code (proj4, WKT2, pyproj spellings), each fresh and after .epsg/to_epsg() "
+                 "was evaluated on the operand's CRS object", setup=reset),
         e1.Slice("fresh-cache", gen_fresh, run_fresh,
                  "representative operations on every ordered tag pair, built in both orders (and with the caches emptied "
                  "between the two operands) on emptied CRS caches, after nothing or after one earlier construction from "
@@ -886,7 +987,11 @@ def main(ctx):
     )
     ctx.bounds = {
         "tags": list(TAGS),
-        "tag_classes": "by EPSG code; 'none' is its own class",
+        "tag_classes": "by EPSG code; 'none' is its own class; custom projections: which projection (laeaA / laeaB)",
+        "non_epsg_slice_tags": list(SUB_TAGS),
+        "non_epsg_projections": PROJ4,
+        "tag_state_+e": "`.epsg` and `to_epsg()` evaluated on the operand's own CRS object inside run() before the call; "
+                        "plain tags of that slice get a new CRS object per case",
         "geometry_kinds": list(GEOM_KINDS),
         "bbox_kinds": {k: list(v) for k, v in BB_KINDS.items()},
         "geobox_kinds (ny,nx,col/16,row/16,pixel/16)": {k: list(v) for k, v in GB_KINDS.items()},
